@@ -62,6 +62,9 @@ def natural_missing(st, x):
     return out
 
 
+INTLIKE = frozenset(["int", "bool"])
+
+
 def natural_refuted(facts, x):
     ix = CallT("builtin:int", [x])
     for f in facts:
@@ -69,11 +72,18 @@ def natural_refuted(facts, x):
             return True
         if f[0] == "ne" and {f[1], f[2]} == {ix, x}:
             return True
-        # turned away for its type: justified only when the value is no number at all (2.0, True
-        # and 3 are all in the grammar: "not an int" alone does not put a value outside it)
-        if f[0] == "nottype" and f[1] == x and NUM <= f[2]:
+        # turned away on a type test.  "Not an int" / "is a bool" alone does not put a value
+        # outside the grammar (2.0 and True are in it); other type tests are taken as the
+        # rejection of a non-number, as the checkers of this package write them
+        if f[0] == "nottype" and f[1] == x and not f[2] <= INTLIKE:
             return True
-        if f[0] == "type" and f[1] == x and not (f[2] & NUM):
+        if f[0] == "type" and f[1] == x and not f[2] <= INTLIKE:
+            return True
+    # not a finite number
+    for f in facts:
+        if f[0] == "truthy" and is_call(f[1], ("ext:math.isnan", "ext:math.isinf")) and f[1][2] == (x,):
+            return True
+        if f[0] == "falsy" and is_call(f[1], "ext:math.isfinite") and f[1][2] == (x,):
             return True
     want = frozenset({(x, 1)})  # x + c <= 0 with c >= 0  <=>  x <= -c  => x < 1
     return any(co == want and c >= 0 for _f, (co, c) in le_facts(facts))
@@ -255,6 +265,10 @@ def function_decides(eng, q, kind):
         else:
             n_rej += 1
             if not refuted(facts, x):
+                from . import refuted_at_defaults
+
+                if refuted_at_defaults(eng, q, (sm.params[0],), facts):
+                    continue  # (only reachable with a non-default value of an added optional parameter)
                 rej_bad.append("%s at %s (%s)" % (p.value.exc, p.value.chain[-1].loc(), p.value.why[:50]))
     ok = not acc_bad and not rej_bad and n_acc > 0
     detail = {"accepting_paths": n_acc, "rejecting_paths": n_rej}
